@@ -107,17 +107,15 @@
             (json_eq (pval (seq.nth a j)) (dget b (pkey (seq.nth a j)) 0))
             (json_eq_map a b (+ j 1))))))
 
-; is_json: a JSON value (finite tree of null/bool/int/float/str/list/dict with distinct keys)
+; is_json: a JSON value (finite tree of null/bool/int/float/str/list/dict with distinct string keys)
 (define-funs-rec ((is_json ((a V)) Bool) (is_json_seq ((a (Seq V)) (j Int)) Bool)
-                  (is_json_map ((a (Seq V)) (j Int)) Bool))
+                  (is_json_vals ((a (Seq V)) (j Int)) Bool))
  ((or (k_none a) (k_bool a) (k_int a) (k_float a) (k_str a)
       (and ((_ is v_list) a) (is_json_seq (lval a) 0))
-      (and ((_ is v_dict) a) (is_json_map (ditems a) 0)))
+      (and (dict_wf a) (is_json_vals (ditems a) 0)))
   (ite (or (< j 0) (>= j (seq.len a))) true (and (is_json (seq.nth a j)) (is_json_seq a (+ j 1))))
   (ite (or (< j 0) (>= j (seq.len a))) true
-       (and ((_ is v_pair) (seq.nth a j)) (is_json (pval (seq.nth a j)))
-            (keys_distinct_from a (pkey (seq.nth a j)) (+ j 1))
-            (is_json_map a (+ j 1))))))
+       (and (is_json (pval (seq.nth a j))) (is_json_vals a (+ j 1))))))
 
 ; ---- membership (x in container) by ==
 (define-fun-rec seq_has_pyeq ((s (Seq V)) (x V) (j Int)) Bool
